@@ -317,6 +317,16 @@ fn hostile_oracle() -> Oracle {
         let opt = DocOptions { stray_em_false: false, tweak: Some(*tweak), variant: variant_named(name, *n), encrypt_metadata: true, indirect_encrypt: true, xref_stream: k % 2 == 1, with_metadata: true, with_objstm: false };
         let d = build(&mut rng, &opt, b"user", b"owner");
         // V 1 ignores /Length: that document is well-formed and must simply open
+        // the same dictionary at the level of the API: `from_password`, then `Debug` and `decrypt` on
+        // whatever decoder it returns (D18: `Decoder::key()` sliced past the end of a short key)
+        for pw in [&b"user"[..], &b"owner"[..]] {
+            let r = corr::real_frompw(&d.fields, &d.params.id0, pw, 1, 0, &[0u8; 32]);
+            or.case(&format!("api {}#{}", d.desc, hex(pw)), true, || json!({"doc": d.desc, "from_password": r.chars().take(80).collect::<String>()}));
+            if r.contains("panic") {
+                or.fail(&format!("panic:{:?}-api", tweak), &format!("{}: from_password / Debug / decrypt panics: {}", d.desc, r.chars().take(80).collect::<String>()),
+                    json!({"oracle": "c06.hostile", "case": k, "doc": d.desc, "password_hex": hex(pw), "dict": d.fields.proto()}));
+            }
+        }
         for pw in [&b"user"[..], &b"owner"[..], &b"nope"[..]] {
             // V 1 ignores /Length: that document is well-formed; a damaged /UE does not concern the owner
             let must_open = pw != b"nope" && (*name == "R2-RC4-40" || (*tweak == Tweak::EmptyUE && pw == b"owner"));
@@ -377,7 +387,7 @@ pub fn run(driver: &Driver, seed: u64, thorough: bool, replay: Option<&Value>) -
     corr::run(driver, &mut rep, seed, thorough);
     rep.oracles.push(hostile_oracle());
     rep.oracles.push(fixtures::fixtures_oracle());
-    rep.oracles.push(files_oracle(seed, 0, if thorough { 30_000 } else { 1500 }));
+    rep.oracles.push(files_oracle(seed, 0, if thorough { 40_000 } else { 3000 }));
     rep
 }
 
